@@ -84,6 +84,28 @@ theorem c09_discriminated_keeps_variant (inv : String → Obj → Bool) (cls : S
     ∃ e, validate (cfgOf inv) (.ref cls) (.obj kvs) = .error e :=
   tag_mismatch_rejects (classWF_sound (c09_schemas_wellformed c (find_mem hfind))) hfind hf hty kvs hnd hna hl hs
 
+/-- non-vacuity (F-C09d's input): an `image` block carrying an extra `text` member is rejected by
+`TextContent`, the first member of the content unions. -/
+example : validate (cfgOf docInv) (.ref "TextContent") (.obj [("type", .str "image"), ("data", .str "d"),
+      ("mimeType", .str "m"), ("text", .str "caption")]) = .error "literal mismatch" := by
+  simp [validate, cfgOf, Cfg.find, classes, validateMembers, assemble, collapse, setKey, fieldValue, seqFields,
+    lookup, Class.byName, Class.byWire, Class.attrOf, validatePrim]
+
+/-- **Every union of model classes in the table is separated.**  For every field of every discovered
+class and every ordered pair (`a` tried before `b`) of model-class members of a union in its type:
+`a` and `b` carry a `Literal` tag under the same wire name with disjoint constants (then
+`c09_discriminated_keeps_variant` rejects a `b`-object at `a`), or `a` requires a member that `b` does
+not declare (then `missing_required_rejects` rejects a `b`-object that has no unknown member of that
+name: `TextResourceContents | BlobResourceContents`, which the spec does not discriminate).  This is
+the syntactic reason why the hypothesis `unamb` of `c09_conforming_identity` holds on spec-valid
+traffic; a union added later that is not separated breaks this theorem.  (Finite generated table.) -/
+theorem c09_unions_separated :
+    ∀ c ∈ classes, ∀ f ∈ c.fields, ∀ u ∈ unionsOf f.ty, ∀ p ∈ orderedPairs u, separated classes p.1 p.2 = true := by
+  decide +kernel
+
+/-- non-vacuity: the table has a union of four model classes (six ordered pairs) -/
+example : ∃ c ∈ classes, ∃ f ∈ c.fields, ∃ u ∈ unionsOf f.ty, (orderedPairs u).length ≥ 6 := by decide +kernel
+
 /-- hook names of a class that a backend calls after construction -/
 def calledHooks (calls : List String) (c : Class) : List String := c.hooks.filter (fun h => calls.contains h)
 
